@@ -304,18 +304,19 @@ example : (handleEvent 0 conn free inHup eofOnly).hup.isSome = true ∧
 /-- and when bytes were read in this event the hang-up is left for the next wake-up -/
 example : (handleEvent 0 conn free inHup dataThenEof).hup = none := by decide
 
-/-- **Every queued hang-up is reported** – *partial*: for batches in which `handler` does not return
-true (no close message).  In a batch of distinct operators every operator that went through
-`appendHup` with a non-nil `OnHup` has it run (exactly once by `C11_hup_once_after_detach`), and
-nothing else is run. -/
-theorem C11_hup_reported_partial (b : Nat) (st : Nat → OpSt) (evs : List Ev) (hd : DistinctIds evs)
-    (hne : (handleBatch b st evs).exit = false) (hns : (handleBatch b st evs).stuck = false) (id : Nat) :
+/-- **Every queued hang-up is reported.**  In a batch of distinct operators every operator that went
+through `appendHup` with a non-nil `OnHup` has it run (exactly once by `C11_hup_once_after_detach`),
+and nothing else is run – whether `handler` works through the whole array or returns true at a
+close message behind the hang-up (the wake-up branch calls `onhups()` before it returns).
+(`stuck = false`: the system-call script did not run dry, i.e. the batch was handled to its end.) -/
+theorem C11_hup_reported (b : Nat) (st : Nat → OpSt) (evs : List Ev) (hd : DistinctIds evs)
+    (hns : (handleBatch b st evs).stuck = false) (id : Nat) :
     (id, .hupQueued true) ∈ (handleBatch b st evs).tr ↔ (id, .onHupRun) ∈ (handleBatch b st evs).full := by
   rcases loop_hups evs hd b st [] with ⟨extra, hx1, _, hx3, _⟩
   have hf := batch_fields b st evs
   have hno := loop_no_onHupRun evs b st [] id
   have hran : (handleBatch b st evs).ran = (extra.filter (·.2)).map (·.1) := by
-    rw [hf.2.2.2.2, ← hf.2.2.1, ← hf.2.2.2.1, hne, hns, hx1]; rfl
+    rw [hf.2.2.2.2, ← hf.2.2.2.1, hns, hx1]; rfl
   unfold BatchOut.full
   rw [hf.1, List.mem_append, hran]
   constructor
@@ -335,36 +336,47 @@ theorem C11_hup_reported_partial (b : Nat) (st : Nat → OpSt) (evs : List Ev) (
 
 example : (1, Cb.hupQueued true) ∈ (handleBatch 0 allFree [hupEv 1]).tr ∧ (handleBatch 0 allFree [hupEv 1]).exit = false := by decide
 
-/-- What the partial theorem excludes happens in the unchanged code: a close message in the same
-batch makes `handler` return before `onhups()`; the operator was detached, its `OnHup` was queued,
-and it never runs. -/
-theorem C11_close_drops_hups_witness :
-    (1, Cb.detach true) ∈ (handleBatch 0 allFree [hupEv 1, closeEv 9]).tr ∧
-    (handleBatch 0 allFree [hupEv 1, closeEv 9]).hups = [(1, true)] ∧
-    (handleBatch 0 allFree [hupEv 1, closeEv 9]).exit = true ∧
-    (1, Cb.onHupRun) ∉ (handleBatch 0 allFree [hupEv 1, closeEv 9]).full := by decide
+/-- a close message in the same batch, behind the hang-up: `handler` returns true and the operator that
+was detached in this batch still gets its `OnHup` (before the fix it never did:
+`Netpoll.Poll.HandlerOld.close_drops_hups_prefix_witness`) -/
+example : (handleBatch 0 allFree [hupEv 1, closeEv 9]).exit = true ∧ (handleBatch 0 allFree [hupEv 1, closeEv 9]).stuck = false ∧
+    (1, Cb.hupQueued true) ∈ (handleBatch 0 allFree [hupEv 1, closeEv 9]).tr ∧
+    (1, Cb.onHupRun) ∈ (handleBatch 0 allFree [hupEv 1, closeEv 9]).full := by decide
 
 /-! ### Close and Trigger -/
 
 /-- **The close message stops the loop after releasing both descriptors.** `handler` returns true
-only in the wake-up branch; the batch's trace then ends with: read the eventfd, clear the trigger
-flag, close the eventfd, close the epoll descriptor, `done()`; nothing of the events behind it in
-the array is processed and no hang-up goroutine is started. -/
+only in the wake-up branch; its own steps for the batch then end with: read the eventfd, clear the
+trigger flag, close the eventfd, close the epoll descriptor, `done()`; nothing of the events behind
+it in the array is processed; after that only the hang-up callbacks of operators queued in front of
+the close message run (all of them, by `C11_hup_reported`). -/
 theorem C11_close_releases (b : Nat) (st : Nat → OpSt) (evs : List Ev) (hx : (handleBatch b st evs).exit = true) :
     ∃ pre e post l, evs = pre ++ e :: post ∧ e.op.wake = true ∧
       (handleBatch b st evs).full =
-        l ++ [(e.id, .wakeRead), (e.id, .trigStore), (e.id, .closeWop), (e.id, .closeEp), (e.id, .done)] ∧
-      ∀ x ∈ l, ∃ e' ∈ pre, e'.id = x.1 := by
+        l ++ [(e.id, .wakeRead), (e.id, .trigStore), (e.id, .closeWop), (e.id, .closeEp), (e.id, .done)] ++
+          (handleBatch b st evs).ran.map (·, .onHupRun) ∧
+      (∀ x ∈ l, ∃ e' ∈ pre, e'.id = x.1) ∧
+      (∀ j ∈ (handleBatch b st evs).ran, ∃ e' ∈ pre, e'.id = j) := by
   have hf := batch_fields b st evs
   rw [hf.2.2.1] at hx
-  rcases loop_exit evs b st [] hx with ⟨pre, e, post, l, hes, hw, htr, hl, _⟩
-  refine ⟨pre, e, post, l, hes, hw, ?_, hl⟩
-  unfold BatchOut.full
-  rw [hf.1, hf.2.2.2.2, hx, htr]
-  simp
+  rcases loop_exit evs b st [] hx with ⟨pre, e, post, l, hes, hw, htr, hl, _, hst, hh⟩
+  refine ⟨pre, e, post, l, hes, hw, ?_, hl, ?_⟩
+  · unfold BatchOut.full
+    rw [hf.1, htr]
+  · intro j hj
+    rw [hf.2.2.2.2, hst] at hj
+    simp only [Bool.false_eq_true, if_false] at hj
+    rcases List.mem_map.1 hj with ⟨p, hp, rfl⟩
+    rcases hh p (List.mem_filter.1 hp).1 with hn | hpre
+    · cases hn
+    · exact hpre
 
 example : (handleBatch 0 allFree [closeEv 9, hupEv 1]).full =
     [(9, .wakeRead), (9, .trigStore), (9, .closeWop), (9, .closeEp), (9, .done)] := by decide
+
+example : (handleBatch 0 allFree [hupEv 1, closeEv 9, hupEv 2]).full =
+    [(1, .inputs), (1, .inputAck 0), (1, .hupQueued true), (1, .detach true), (1, .done),
+     (9, .wakeRead), (9, .trigStore), (9, .closeWop), (9, .closeEp), (9, .done), (1, .onHupRun)] := by decide
 
 /-- and only the close message does: one event makes `handler` return true iff it is the wake-up
 operator, its token was free, and the first byte of the buffer after the read is non-zero. -/
